@@ -836,6 +836,43 @@ func c04LenPad(c *Ctx, write, sum *ssa.Function) {
 		}
 	}
 	want := []int{7, 6, 5, 4, 3, 2, 1, 0}
+	// the same eight bytes written with encoding/binary: BigEndian.PutUint64(buf[:8], length) and append(msg, buf...)
+	if len(lanes) == 0 {
+		for _, b := range pad.Blocks {
+			for _, in := range b.Instrs {
+				call, ok := in.(*ssa.Call)
+				if !ok || calleeID(&call.Call) != "(encoding/binary.bigEndian).PutUint64" || len(call.Call.Args) != 3 {
+					continue
+				}
+				ld, ok := call.Call.Args[2].(*ssa.UnOp)
+				if !ok {
+					continue
+				}
+				fa, ok := ld.X.(*ssa.FieldAddr)
+				if !ok || fieldName(fa.X.Type(), fa.Field) != lenField {
+					continue
+				}
+				// the 8-byte buffer is what gets appended afterwards
+				if sl, ok := call.Call.Args[1].(*ssa.Slice); ok {
+					if al, ok := sl.X.(*ssa.Alloc); ok {
+						if n, ok := staticLen(al.Type().Underlying().(*types.Pointer).Elem()); ok && n == 8 {
+							for _, r := range *al.Referrers() {
+								if s2, ok := r.(*ssa.Slice); ok {
+									for _, r2 := range *s2.Referrers() {
+										if ap, ok := r2.(*ssa.Call); ok {
+											if bi, ok := ap.Call.Value.(*ssa.Builtin); ok && bi.Name() == "append" && len(ap.Call.Args) == 2 && ap.Call.Args[1] == ssa.Value(s2) && instrReaches(call, ap, nil) {
+												lanes = append([]int{}, want...)
+											}
+										}
+									}
+								}
+							}
+						}
+					}
+				}
+			}
+		}
+	}
 	c.Check(laneOK && fmt.Sprint(lanes) == fmt.Sprint(want), "K-C04-pad", fname(pad), "64-bit big-endian bit length", "",
 		fmt.Sprintf("the padding must end with the 8 bytes of the bit length, most significant first; byte lanes appended: %v", lanes), pad.Pos())
 	// (d) 0x80 first: the append of 0x80 dominates all other appends
